@@ -91,7 +91,7 @@ CHECKS = {
         "Generated wire-unambiguous spec trees are fed to the real generator; every drawn valid object the "
         "format can carry (decided by the reference interpreter's own round trip) is serialised with a fresh "
         "writer and deserialised with a fresh reader; result must equal the original field by field, consume "
-        "exactly the bytes written, and report byte_size (nested too). Sampled: ~4k trees / ~30k objects "
+        "exactly the bytes written, and report byte_size (nested too). Sampled: ~6.4k trees / ~50k objects "
         "quick, ~40k trees thorough.",
         "Trusted: the reference interpreter only as domain filter (a too-permissive reference could cause a "
         "false alarm, a too-strict one only lowers yield; C02/C03 compare it with the code directly).",
